@@ -110,22 +110,22 @@ type blkScan struct {
 	bf       *blkFile
 	worker   string
 	fnLabel  string
-	ctxNames map[string]bool // identifiers that denote the worker's context (or one derived from it)
-	ctxField bool            // accept <x>.ctx.Done() (sshd: config.ctx is the per-call context)
-	chans    map[string]int  // local channels: name -> capacity (0 = unbuffered)
-	chanName map[string]bool // names of channel type (params, locals, struct fields)
+	ctxNames map[string]bool   // identifiers that denote the worker's context (or one derived from it)
+	ctxField bool              // accept <x>.ctx.Done() (sshd: config.ctx is the per-call context)
+	chans    map[string]int    // local channels: name -> capacity (0 = unbuffered)
+	chanName map[string]bool   // names of channel type (params, locals, struct fields)
 	cancels  map[string]string // cancel function name -> derived context name
-	sends    map[string]int  // number of send statements per channel name in the function
+	sends    map[string]int    // number of send statements per channel name in the function
 	rows     *[]blkRow
 	helpers  *[]blkHelper
 	visited  map[string]bool
 	nGo      int
 	// idioms recognised in the function body
-	closeOnCancel map[string]bool // file identifiers closed by `go func(){ <-ctx.Done(); f.Close() }()`
+	closeOnCancel map[string]bool   // file identifiers closed by `go func(){ <-ctx.Done(); f.Close() }()`
 	readerOf      map[string]string // bufio reader ident -> file ident
-	selectDoneAnd map[string]bool // channels c such that the function has `select { case <-ctx.Done(): ...; case <-c: }`
-	joinChan      map[string]bool // channels received in a recognised `defer func(){ cancel(); <-c }()`
-	deferClose    map[string]bool // identifiers X with a top-level `defer X.Close()`
+	selectDoneAnd map[string]bool   // channels c such that the function has `select { case <-ctx.Done(): ...; case <-c: }`
+	joinChan      map[string]bool   // channels received in a recognised `defer func(){ cancel(); <-c }()`
+	deferClose    map[string]bool   // identifiers X with a top-level `defer X.Close()`
 }
 
 func blkBaseName(e ast.Expr) string {
